@@ -8,19 +8,22 @@ namespace Drx.LinkFlow
 open Drx Drx.Lscr
 
 /-- first loop of `condition_detect_in_statements`, part 1: the recursive call on the body of every repeat statement of the list -/
-def mapRep (d : Nat) (stmts : List Node) : R (List Node) :=
+def mapRep (d : Nat) (stmts : List Node) (roEnd : Option Int) : R (List Node) :=
   match d with
-  | 0 => if stmts.any isRepeatStmt then .error .other else .ok stmts
+  | 0 => if stmts.any isNestStmt then .error .other else .ok stmts
   | d' + 1 => stmts.mapM fun st =>
       match st with
       | .stmt p (.repeat_ rp re c body t s v sg vr) => do
         let body' ← condDetectD d' body (some re)
         pure (.stmt p (.repeat_ rp re c body' t s v sg vr))
+      | .stmt p (.tell tp operand inner closed) => do
+        let inner' ← condDetectD d' inner roEnd
+        pure (.stmt p (.tell tp operand inner' closed))
       | x => pure x
 
 theorem condDetectD_eq (d : Nat) (stmts : List Node) (r : Option Int) :
     condDetectD d stmts r =
-      (mapRep d stmts).bind fun s1 => (s1.foldlM (scanStep r) {}).bind fun sc => condJzs d stmts.length sc.jzs s1 r := by
+      (mapRep d stmts r).bind fun s1 => (s1.foldlM (scanStep r) {}).bind fun sc => condJzs d stmts.length sc.jzs s1 r := by
   rw [condDetectD.eq_def]
   cases d with
   | zero =>
